@@ -280,8 +280,13 @@ pub fn run_enc_check(ctx: &Ctx, check: &EncCheck) -> Stats {
                         return;
                     }
                     let mut text: Vec<u32> = (0..p).map(|i| 0x61 + i as u32).collect();
+                    // back to back, or each copy followed by 1 or 3 ASCII letters (see the decoder family)
+                    let gap = [0usize, 1, 3][(k + p) % 3];
                     for _ in 0..k {
                         text.push(x);
+                        for g in 0..gap {
+                            text.push(0x62 + g as u32);
+                        }
                     }
                     text.push(0x7A);
                     for &src in &check.srcs {
@@ -325,7 +330,7 @@ pub fn run_enc_check(ctx: &Ctx, check: &EncCheck) -> Stats {
         }
     });
     total.merge(st);
-    total.exhaustive.push("uniform-run family: 15/16/17/32/33 copies of each non-ASCII alphabet character (UTF-16: also lone surrogates) after 0 or 3 ASCII characters x sources x sinks x modes x capacities {minimum, +1, +3, 15, 16, 17, 25, 26, 47, minimum then 33}".into());
+    total.exhaustive.push("uniform-run family: 15/16/17/32/33 copies of each non-ASCII alphabet character (UTF-16: also lone surrogates; back to back, or each followed by 1 or 3 ASCII letters) after 0 or 3 ASCII characters x sources x sinks x modes x capacities {minimum, +1, +3, 15, 16, 17, 25, 26, 47, minimum then 33}".into());
     if fw::should_stop() {
         return total;
     }
